@@ -4,16 +4,16 @@
 (* Dev = {} is the repaired dispatch; Dev = {"ExactOnlyNonLocal"} / {"RootSkipped"} is the code as shipped  *)
 (* and TLC exhibits the lost Data.                                                                          *)
 EXTENDS Node
-CONSTANTS MaxDepth, WithRoot
+CONSTANTS NT, MaxDepth, WithRoot
 VARIABLES H, nextTok
 MCNames == { <<"a">>, <<"a","b">>, <<"localhost","x">> } \cup (IF WithRoot THEN { <<>> } ELSE {})
 MCData  == { <<"a">>, <<"a","b">>, <<"a","b","c">>, <<"localhost","x">> }
 AllNames == MCNames \cup MCData \cup { <<>>, <<"localhost">> }
 mvars == <<vars, H, nextTok>>
-Init == /\ now = 0 /\ hmap = Empty /\ pend = Empty /\ ent = Empty /\ cs = [t \in Threads |-> {}] /\ lastI = 0
+Init == /\ nt = NT /\ now = 0 /\ hmap = Empty /\ pend = Empty /\ ent = Empty /\ cs = [t \in 0..(NT - 1) |-> {}] /\ lastI = 0
         /\ ev = [kind |-> "0"]
-        /\ H \in { h \in [AllNames -> Threads] : \A n \in AllNames : IsLocalhost(n) => h[n] = 0 }
-        /\ nextTok = [t \in Threads |-> 1]
+        /\ H \in { h \in [AllNames -> 0..(NT - 1)] : \A n \in AllNames : IsLocalhost(n) => h[n] = 0 }
+        /\ nextTok = [t \in 0..(NT - 1) |-> 1]
 IStep == \E f \in Faces, n \in MCNames, cbp \in BOOLEAN :
            LET i == [f |-> f, n |-> n, cbp |-> cbp, dtok |-> f * 10]
                t == H[n]
@@ -22,11 +22,11 @@ IStep == \E f \in Faces, n \in MCNames, cbp \in BOOLEAN :
                etok == IF live THEN ent[<<t, key>>] ELSE nextTok[t]
                x == <<t, key, f>>
                cand == \E nm \in cs[t] : nm = n \/ (cbp /\ IsPrefix(n, nm))
-               hit == ~IEarly(i) /\ cand /\ ~(x \in DOMAIN pend /\ Alive(x))
-           IN /\ \E g \in {0} \cup (Faces \ {f}) :
-                   NodeInterest(i, [thr |-> t, etok |-> etok, hit |-> hit,
-                                    up |-> IF hit \/ IEarly(i) \/ g = 0 \/ ~ScopeOk(g, n) THEN {} ELSE {[face |-> g, thr |-> t, tok |-> etok]},
-                                    D |-> IF hit THEN <<[face |-> f, tok |-> i.dtok]>> ELSE <<>>])
+               hit == ~IEarly(i) /\ cand /\ x \notin DOMAIN pend
+               ups == { g \in Faces \ {f} : ScopeOk(g, n) }    \* which faces the strategy picks is Forwarder.tla's business
+           IN /\ NodeInterest(i, [thr |-> t, etok |-> etok, hit |-> hit,
+                                  up |-> IF hit \/ IEarly(i) THEN {} ELSE { [face |-> g, thr |-> t, tok |-> etok] : g \in ups },
+                                  D |-> IF hit THEN <<[face |-> f, tok |-> i.dtok]>> ELSE <<>>])
               /\ nextTok' = IF live \/ IEarly(i) THEN nextTok ELSE [nextTok EXCEPT ![t] = @ + 1]
               /\ UNCHANGED H
 ToSeq(S) == LET RECURSIVE F(_)
